@@ -41,6 +41,7 @@ type scenario struct {
 	OnlyOps   []string `json:"only_ops,omitempty"`   // restrict the operator menu (quick-tier sizing of expensive scenarios)
 	StartOnly bool     `json:"start_only,omitempty"` // only the dealer-from-the-start deviations (special.go: startCases)
 	OnlyPaths []string `json:"only_paths,omitempty"` // restrict the field paths (quick-tier sizing of expensive scenarios)
+	MsgLen    int      `json:"msg_len,omitempty"`    // length of the message digest that is signed (default 32)
 }
 
 // world is a scenario made concrete: the session description plus what the oracles need.
@@ -93,6 +94,12 @@ func build0(sc scenario) (*world, error) {
 	sess.PoolWorkers = sc.Pool // read by the start functions when the handlers are created
 	ids := kmat.IDs[:sc.N]
 	w := &world{sc: sc, ids: ids, msg: msg32}
+	if sc.MsgLen > 0 {
+		w.msg = make([]byte, sc.MsgLen)
+		for i := range w.msg {
+			w.msg[i] = byte(0x30 + i%64)
+		}
+	}
 	var err error
 	pubOf := func(r interface{}) error {
 		v, err := oracle.ViewOf(r)
@@ -256,6 +263,10 @@ func scenarios(check string) []scenario {
 		// the openings of the last round of the offline presigning (presignature id and its decommitment, S share)
 		l = append(l, scenario{Name: "cmp-presign/n2/t1/last-round-openings", Proto: "cmp-presign", N: 2, T: 1, Cost: 2,
 			OnlyPaths: []string{"/PresignatureID", "/DecommitmentID", "/S"}})
+	}
+	if check == "C03" || check == "C04" {
+		// the signature share of the online phase on a digest LONGER than a scalar (64 bytes, what the package's own tests sign)
+		l = append(l, scenario{Name: "cmp-presign-online/n2/t1/digest64", Proto: "cmp-presign-online", N: 2, T: 1, Cost: 1, MsgLen: 64, OnlyPaths: []string{"/Sigma"}})
 	}
 	add("cmp-sign", 2, 1, 2) // the largest quick-tier catalogue comes last: an internal deadline, if ever hit, cuts only it
 	if vkit.Thorough() {
